@@ -15,6 +15,11 @@ theorem wrapI32_id (z : Int) (h1 : -(2:Int)^31 ≤ z) (h2 : z < (2:Int)^31) : wr
   simp only [e32, e31]
   split <;> omega
 
+theorem wrapI64_id (z : Int) (h1 : -(2:Int)^63 ≤ z) (h2 : z < (2:Int)^63) : wrapI64 z = z :=
+  SF.wrapI64_of_range z h1 h2
+
+theorem wrapI64_neg1 : wrapI64 (-1) = -1 := wrapI64_id _ (by norm_num) (by norm_num)
+
 theorem pow_le_2_31 (k : Nat) (h : k ≤ 31) : (2:Nat)^k ≤ 2147483648 := by
   calc (2:Nat)^k ≤ 2^31 := Nat.pow_le_pow_right (by omega) h
     _ = 2147483648 := by norm_num
@@ -42,9 +47,17 @@ theorem valueBits_valueOfBits_code (n : Node) (raw : Nat)
   by_cases hmiss : raw = missingIvalue n.enc.nbits
   · rw [if_pos hmiss]
     split
-    · simp [Val.setInt64, Val.getInt64, wrapI32_id (-1) (by norm_num) (by norm_num), hmiss]
-    · simp [Val.setInt64, Val.getInt64, hmiss]
+    · simp [Val.setInt64, Val.getInt64, wrapI64_neg1, wrapI32_id (-1) (by norm_num) (by norm_num), hmiss]
+    · simp [Val.setInt64, Val.getInt64, wrapI64_neg1, hmiss]
   · rw [if_neg hmiss]
+    have hw64 : wrapI64 (raw : Int) = raw := by
+      apply wrapI64_id
+      · have : (0:Int) ≤ raw := Int.natCast_nonneg raw
+        have : (0:Int) ≤ (2:Int)^63 := by positivity
+        omega
+      · have hp : (2:Nat)^n.enc.nbits.toNat ≤ 2^63 := Nat.pow_le_pow_right (by omega) (by omega)
+        have e63 : (2:Int)^63 = ((2^63 : Nat) : Int) := by norm_num
+        rw [e63]; exact_mod_cast (by omega : raw < 2^63)
     split
     · next h31 =>
       have hp := pow_le_2_31 n.enc.nbits.toNat (by omega)
@@ -55,9 +68,9 @@ theorem valueBits_valueOfBits_code (n : Node) (raw : Nat)
         have : (2:Int)^31 = 2147483648 := by norm_num
         rw [this]; omega
       have hnn : ¬ ((raw : Int) < 0) := by omega
-      simp [Val.setInt64, Val.getInt64, wrapI32_id _ hge hlt, hnn]
+      simp [Val.setInt64, Val.getInt64, hw64, wrapI32_id _ hge hlt, hnn]
     · have hnn : ¬ ((raw : Int) < 0) := by omega
-      simp [Val.setInt64, Val.getInt64, hnn]
+      simp [Val.setInt64, Val.getInt64, hw64, hnn]
 
 /-- **scaled numerics are stable** (double path, C08's domain): any raw pattern decodes to a physical
 value that encodes to the same pattern again -/
